@@ -3089,7 +3089,7 @@ class QuicConnection:
 
         while True:
             # apply pacing, except if we have ACKs to send
-            if space.ack_at is None or space.ack_at >= now:
+            if space.ack_at is None or space.ack_at > now:
                 self._pacing_at = self._loss._pacer.next_send_time(now=now)
                 if self._pacing_at is not None:
                     break
